@@ -147,7 +147,7 @@ CLAIMED.update({
                 "explicit panics in the encoder closure vs a triaged table, string-map lookups are error exits, the decoder overwrites every column of "
                 "the reused vcf RecordBuf, the per-type copies of the FORMAT value decoders agree on the guards under which a sample is missing. Record equality and "
                 "per-sample padding are not decided.",
-        "note": "one genuine defect (encoder todo!() on a missing INFO value) was repaired (fix: d137c9d); R9 grow-only dictionary, R10 dictionary numbering order (writer collections vs header text); genuine defect F43 (genotype padding inside the allele loop: mixed ploidy corrupted) repaired (fix: cf547a4; R11); F45 (phasing of a missing allele lost; fix: a1364e4; R12); round 8: R13 implicit phasing visits every allele; genuine defects F56 (scalar from an array-typed lazy INFO reader; fix: 01b4831; R14) and F57 (unchecked i8 allele code; fix: 17eaf3d; R15) and F60 (lazy array len counted padding: lazy BCF copy written short; fix: 4cc17cf; R16) repaired",
+        "note": "one genuine defect (encoder todo!() on a missing INFO value) was repaired (fix: d137c9d); R9 grow-only dictionary, R10 dictionary numbering order (writer collections vs header text); genuine defect F43 (genotype padding inside the allele loop: mixed ploidy corrupted) repaired (fix: cf547a4; R11); F45 (phasing of a missing allele lost; fix: a1364e4; R12); round 8: R13 implicit phasing visits every allele; genuine defects F56 (scalar from an array-typed lazy INFO reader; fix: 01b4831; R14) and F57 (unchecked i8 allele code; fix: 17eaf3d; R15) and F60 (lazy array len counted padding: lazy BCF copy written short; fix: 4cc17cf; R16) and F61 (missing sample genotype refused by the writer; fix: 7205bc3; R17) repaired",
         "technique": "static analysis: interval domain with dominating guards over MIR, evaluated constants, HIR match-table agreement, panic inventory",
         "design_ref": "§5 C10",
     },
